@@ -421,6 +421,36 @@ def family_K(tier, seed):
 
 
 # ------------------------------------------------------------------------------------------
+# family G: degenerate ranges.  A range whose low end exceeds its high end holds no value (as in SystemVerilog): alone it
+# makes the membership unsatisfiable, next to other items it contributes nothing; the member is related to other variables
+# so that the empty domain travels through the bound propagation.
+# ------------------------------------------------------------------------------------------
+def family_G(tier, seed):
+    out = []
+    n = 8 if tier == "quick" else 64
+    for t in range(n):
+        rnd = random.Random(9393 + t + (0 if t < n // 2 else 1000 * seed))
+        sa, sc = rnd.random() < 0.5, rnd.random() < 0.5
+        fields = [fld("a", 2 + (t % 2), sa), fld("b", 2, False), fld("c", 3, sc, rand=t % 4 != 3, init=rnd.randrange(4))]
+        lo_, hi_ = rnd.choice([(2, 1), (3, 0), (1, 0), (3, 2)])
+        items = [{"k": "r", "lo": lit(lo_), "hi": lit(hi_)}]
+        if t % 2 == 1:
+            items.insert(rnd.randrange(2), {"k": "v", "e": lit(rnd.randrange(3))})       # ... plus one real value
+        if t % 8 >= 6:
+            items = [{"k": "r", "lo": F("b"), "hi": lit(0)}]                                  # empty unless b == 0
+        body = [E({"k": "in", "e": F("a"), "items": items, "neg": t % 8 == 5}),
+                E(B(rnd.choice(["eq", "le", "lt", "ge", "ne"]), F("a"), F("c")))]
+        if rnd.random() < 0.5:
+            body.append(E(B(rnd.choice(["le", "ge"]), F("c"), F("b"))))
+        world = one_class_world(fields, body)
+        paths = ["o1." + f["name"] for f in fields if f["rand"]]
+        ops = [{"op": "construct", "o": "o1"}, {"op": "call", "call": mcall()}, {"op": "call", "call": wcall([E(B("le", F("b"), lit(1)))])},
+               {"op": "probe", "call": wcall(), "paths": paths}]
+        out.append({"id": "G/%d" % t, "world": world, "ops": ops, "tags": ["empty_range"]})
+    return out
+
+
+# ------------------------------------------------------------------------------------------
 # family Q: enum fields (class members and free-standing, declared random or not)
 # ------------------------------------------------------------------------------------------
 def efld(name, values, rand=True, init=None):
